@@ -161,7 +161,7 @@ PROPS = {
         "mode": "hostile", "timeout": 3400,
         "technique": "Lean 4 theorems about the model's loader for every byte string (descriptor reads bounded by the bytes present; what loads satisfies the preconditions under which io.SectionReader cannot overflow; object reads bounded) + loader correspondence on hostile inputs (real LoadContainer accept/refuse and view = Lean model) + implementation oracle: every enumerated mutation run through every read-only facility and the siftool inspection commands in memory-limited child processes without recover, with wall time and allocation measured per input",
         "level": "proof",
-        "level_text": "proof (partial: panics, hangs and allocation of the Go code itself are decided by the child-process campaign; the Lean model is total and cannot exhibit a panic): for every byte string and every header in it, the descriptors the loader holds in memory were each read from bytes present in the input - 585 x reads <= length, whether the load is then accepted or refused (C10_load_bounded, readCount_bounded); whatever loads has a non-negative count and table offset, exactly count descriptors, 585 x count <= input length, and no in-use descriptor with a negative offset or size - the conditions under which io.SectionReader cannot overflow (C10_loaded_safe); an object read returns at most min(declared size, bytes present) bytes (C10_reads_bounded); in wrapping int64 arithmetic, io.SectionReader's first read never gets a negative slice bound for a non-negative offset and any size (C10_section_no_panic), whereas the two inputs found by the campaign do (D4c_witness, D12_witness). Tie and search: generated signed images and shipped corpus images x {every single-bit flip of the header and of the used descriptors, boundary values (0, 1, -1, min/max int64, file size -1/+0/+1, 2x, 2^19..2^40) in every numeric header and descriptor field singly and in pairs, truncations, noise}; each input is loaded and exercised (all accessors, selection, GetData/GetReader/GetIntegrityReader, metadata getters, AnySignedBy/AllSignedBy, seven Verify flavours, siftool header/list/info/dump) in a child process with a 6 GiB address-space cap and no recover; a death, a 20 s stall, LoadContainer allocating > 4n+64KiB, one GetData allocating > 4n+64KiB, the battery allocating > 96n+24MiB or taking > 5 s is a violation with the input as replay; a sample of the survived inputs is loaded by the Lean model and its accept/refuse decision and full view compared with the library's.",
+        "level_text": "proof (partial: panics, hangs and allocation of the Go code itself are decided by the child-process campaign; the Lean model is total and cannot exhibit a panic): for every byte string and every header in it, the descriptors the loader holds in memory were each read from bytes present in the input - 585 x reads <= length, whether the load is then accepted or refused (C10_load_bounded, readCount_bounded); whatever loads has a non-negative count and table offset, exactly count descriptors, 585 x count <= input length, and no in-use descriptor with a negative offset or size - the conditions under which io.SectionReader cannot overflow (C10_loaded_safe); an object read returns at most min(declared size, bytes present) bytes (C10_reads_bounded); in wrapping int64 arithmetic, io.SectionReader's first read never gets a negative slice bound for a non-negative offset and any size (C10_section_no_panic), whereas the two inputs found by the campaign do (D4c_witness, D12_witness). Tie and search: generated signed images and shipped corpus images x {every single-bit flip of the header and of the used descriptors, boundary values (0, 1, -1, min/max int64, file size -1/+0/+1, 2x, 2^19..2^40) in every numeric header and descriptor field singly and in pairs, truncations, noise}; each input is loaded and exercised (all accessors, selection, GetData/GetReader/GetIntegrityReader, metadata getters, AnySignedBy/AllSignedBy, ten Verify flavours (PGP keyring, DSSE verifiers, both; default, legacy, legacy-all, group, object, legacy+group, legacy+object; no key material), siftool header/list/info/dump) in a child process with a 6 GiB address-space cap and no recover; a death, a 20 s stall, LoadContainer allocating > 4n+64KiB, one GetData allocating > 4n+64KiB, the battery allocating > 96n+24MiB or taking > 5 s is a violation with the input as replay; a sample of the survived inputs is loaded by the Lean model and its accept/refuse decision and full view compared with the library's.",
         "summary": "loader memory <= input length; loaded => non-negative count/offsets/sizes; reads <= min(size, present)",
         "trusted_base": BASE + ["Go runtime MemStats.TotalAlloc as the allocation measure; RLIMIT_AS in the child; the enumerated mutation families (not coverage-guided fuzzing: no Go fuzzing engine corpus is kept; stated in DESIGN.md)"],
         "assumptions": [CORR, "never-panics / never-loops / proportional allocation of the Go code are shown on the enumerated inputs only"],
